@@ -853,7 +853,12 @@ def c05(res):
             if "sid" in ev and seen.get(label, 0) < 8:
                 seen[label] = seen.get(label, 0) + 1
                 bad.add(ev["sid"])
-        events2 = record_requests(vectors, reqs, "fuzz-retry", configs, only=bad, patient=True)
+        # the listener carries state from one datagram to the next (single-port buffer size, routing
+        # map): a deviation is re-examined by replaying the WHOLE sequence of its configuration,
+        # with four times the grace, not the single exchange on a fresh server
+        bad_cfgs = {(sid - 1) // per for sid in bad}
+        whole = {sid for sid in range(1, per * len(configs) + 1) if (sid - 1) // per in bad_cfgs}
+        events2 = record_requests(vectors, reqs, "fuzz-retry", configs, only=whole, patient=0.25)
         for ev in events2:
             if ev.get("e") == "req":
                 ev["probe"] = bool(vectors[(ev["sid"] - 1) % per]["probe"])
@@ -865,6 +870,16 @@ def c05(res):
         res.events += probe.events
         res.legs += probe.legs
         res.samples += probe.samples[:2]
+    # C05 asks that the server "goes on answering subsequent valid requests correctly": in this run
+    # every reply that differs from the specification's - whatever other property it also breaks -
+    # is a failure to do so
+    REPLY_LABELS = ("ReplyForBadPath", "Refusal", "UnhonourableAcknowledged", "Oack", "WrongFileServed", "ForeignNotRefused",
+                    "ReplyToUndecodable", "Reply", "RefusalPort", "SourcePort")
+    for label, cnt in list(res.drift.items()):
+        name = W.label_props(label)[1]
+        if name in REPLY_LABELS:
+            res.add_violation("FuzzReply:%s" % name, "C05: %d exchange(s) of the fuzz run answered differently from the specification (%s)" % (cnt, label),
+                              {"kind": "fuzz", "label": label, "seed": C.seed()})
     res.extra["fuzz_datagrams_per_config"] = n_per
     res.assumptions += ["resource exhaustion by sheer volume (threads, descriptors) is out of scope",
                         "datagrams longer than the 516-byte request buffer are judged on the truncated bytes"]
